@@ -264,7 +264,8 @@ class Canon(object):
                 for n in ast.walk(fn):          # new helpers and nested closures: guard-clause predicates become one boolean expression
                     if isinstance(n, ast.FunctionDef) and (n is not fn or fn.name not in VOCAB_FUNCS):
                         self._single_return_predicate(n)
-                        self._returned_genexp_to_generator(n)
+                        if n is not fn:         # closures only: a new METHOD returning a generator expression is inlined as that expression
+                            self._returned_genexp_to_generator(n)
         for m in self.prog.modules.values():
             for fn, cls in self._functions(m):
                 backup = copy.deepcopy(fn.body)
